@@ -546,6 +546,12 @@ package zygo
 //@ ghost pushed := true @after call PushExpr[0]
 //@ C01,C02,C04 assert the-assigned-value-is-left @before call PushExpr[0]: arg0 == env.datastack && arg1 == rhs
 //@ C01,C02,C04 ensures success-leaves-the-value: (r0 == nil ==> pushed && err == nil) && (err != nil ==> r0 != nil)
+// a dot path into a reflected Go struct reads only fields reflection may hand out: Interface() on an
+// unexported field panics, and the dot-path resolver runs in VM instructions, outside any recover
+//@ func dotGetSetHelper
+//@ ghost mayBeRead := false @entry
+//@ ghost mayBeRead := ret0 @after call CanInterface[0]
+//@ C01 assert only-fields-reflection-may-hand-out @before call Interface[*]: mayBeRead
 // mdef: every target slot is filled with a symbol before the value is compiled; the bind
 // instruction hands each one to BindSymbol, which dereferences it
 //@ func (*Generator).GenerateMultiDef
